@@ -17,7 +17,13 @@
    pool <n> <op>...                      the interpreter pool (Model/LuaPool.v over Gen/LuaPool.v) from n idle interpreters:
         g.<u>.<e|f|l>.<mode>  Get by request u in cmdEvalUnified / the WHEREEVAL parser / cmdScriptLoad
         s.<u>  Store     c.<u>  tile38.call     x.<u>  way out     p.<k>  Prune drops k
-                                         -> per call  <u>:<mode found or ->:<rw|ro|na|refused> ... | idle interpreters *)
+                                         -> per call  <u>:<mode found or ->:<rw|ro|na|refused> ... | idle interpreters
+   globals <n> <op>...                   what borrowers leave in the global tables (Model/LuaGlobals.v over Gen/LuaGlobals.v):
+        b.<u>.<0|1>  borrow (1: returned in Close())   i.<u>.<fn>.<0|1>  one invocation of fn (1: left by an early return)
+        r.<u>  return                    -> <interpreter>:<extra global>,... for every idle interpreter that has any | idle
+   flush <op>...                         the reply path (Model/ScriptFlush.v over Gen/ReplyFlush.v) on the programs given by `req`:
+        s.<u> micro-step   r.<u> netServe writes u's replies   y background flush
+                                         -> records in the log, records in the file, dirty flag, replies sent u:n:file ... *)
 open Model
 
 let hex = Conv.hex_of_bytes
@@ -234,4 +240,32 @@ let handle (toks : Stdlib.String.t list) : Stdlib.String.t =
         (match c.c_found with Some m -> ocaml_string_of m | None -> "-") (routed c) in
       Stdlib.String.concat " " (Stdlib.List.map call p.calls) ^ " | " ^
       Stdlib.String.concat "," (Stdlib.List.map (fun x -> string_of_int (int_of_nat x)) p.saved)
+  | "globals" :: n :: ops ->
+      let coq_string s = string_of_bytes (bytes_of_ocaml s) in
+      let op t = match Stdlib.String.split_on_char '.' t with
+        | ["b"; u; c] -> GBorrow (nat (int_of_string u), c = "1")
+        | "i" :: u :: rest ->
+            let rest = Stdlib.List.rev rest in
+            (match rest with
+             | early :: fnrev -> GInvoke (nat (int_of_string u), coq_string (Stdlib.String.concat "." (Stdlib.List.rev fnrev)), early = "1")
+             | [] -> failwith "bad invoke")
+        | ["r"; u] -> GReturn (nat (int_of_string u))
+        | _ -> failwith ("bad globals op " ^ t) in
+      let p = grun (ginit (nat (int_of_string n))) (Stdlib.List.map op ops) in
+      let line x = match extras_of p.g_extra x with
+        | [] -> []
+        | l -> [Printf.sprintf "%d:%s" (int_of_nat x) (Stdlib.String.concat "," (Stdlib.List.map ocaml_string_of l))] in
+      Stdlib.String.concat " " (Stdlib.List.concat_map line p.g_idle) ^ " | " ^
+      Stdlib.String.concat "," (Stdlib.List.map (fun x -> string_of_int (int_of_nat x)) p.g_idle)
+  | "flush" :: ops ->
+      let progs t = try Hashtbl.find programs (int_of_nat t) with Not_found -> [] in
+      let op t = match Stdlib.String.split_on_char '.' t with
+        | ["s"; u] -> FStep (nat (int_of_string u))
+        | ["r"; u] -> FReply (nat (int_of_string u))
+        | ["y"] -> FSync
+        | _ -> failwith ("bad flush op " ^ t) in
+      let f = frun kcname khandler leader (finit [] progs) (Stdlib.List.map op ops) in
+      Printf.sprintf "%d %d %s %s" (Stdlib.List.length f.f_g.log) (int_of_nat f.f_file) (Conv.bool_str f.f_dirty)
+        (Stdlib.String.concat " " (Stdlib.List.map (fun (u, (n, fl)) ->
+           Printf.sprintf "%d:%d:%d" (int_of_nat u) (int_of_nat n) (int_of_nat fl)) f.f_sends))
   | _ -> "?unknown"
